@@ -270,4 +270,44 @@ def readToEnd (decode : List Byte → Str) (chunks : List (List Byte)) : Str := 
 /-- a reader that decodes every chunk on its own (not what the code does) -/
 def readChunkwise (decode : List Byte → Str) (chunks : List (List Byte)) : Str := (chunks.map decode).flatten
 
+/-! ## `$?` after a command whose words contained command substitutions
+
+`Shell::set_last_exit_status` stores the status and counts the store; every substitution stores its
+command's status (`invoke_command_in_subshell_and_get_output`).  An assignment-only simple command
+(`SimpleCommand::execute_in_pipeline`) compares the counter before and after expanding its words:
+unchanged → no substitution ran → status 0; otherwise the status the last substitution left.  A
+command with a command word (builtins `declare`/`local`/`export` included) stores its own status
+after the expansions. -/
+
+structure StatusReg where
+  status : Nat
+  changes : Nat
+  deriving DecidableEq, Repr
+
+/-- `Shell::set_last_exit_status` -/
+def StatusReg.set (r : StatusReg) (st : Nat) : StatusReg := { status := st, changes := r.changes + 1 }
+
+/-- the substitutions of the command's words, performed left to right -/
+def performSubsts (r : StatusReg) (codes : List Nat) : StatusReg := codes.foldl StatusReg.set r
+
+inductive Carrier where
+  /-- `x=$(…) y=$(…)` with no command word -/
+  | assignOnly
+  /-- a command word is present; it finishes with `st` -/
+  | command (st : Nat)
+
+def statusAfter (r : StatusReg) (codes : List Nat) : Carrier → StatusReg
+  | .assignOnly =>
+    let r' := performSubsts r codes
+    if r'.changes = r.changes then r'.set 0 else r'
+  | .command st => (performSubsts r codes).set st
+
+/-- a register that does not count a store of the value it already holds (not what the code does) -/
+def StatusReg.setIfChanged (r : StatusReg) (st : Nat) : StatusReg :=
+  if r.status = st then r else { status := st, changes := r.changes + 1 }
+
+def statusAfterAssignVariant (r : StatusReg) (codes : List Nat) : StatusReg :=
+  let r' := codes.foldl StatusReg.setIfChanged r
+  if r'.changes = r.changes then r'.setIfChanged 0 else r'
+
 end BrushVerif.Pipe
